@@ -8,7 +8,6 @@ import (
 	"go/token"
 	"go/types"
 	"math/big"
-	"strings"
 
 	"golang.org/x/tools/go/ssa"
 )
@@ -17,157 +16,6 @@ func bitsRange(bits uint) ISet {
 	lo := new(big.Int).Neg(new(big.Int).Lsh(one, bits-1))
 	hi := new(big.Int).Sub(new(big.Int).Lsh(one, bits-1), one)
 	return ISet{{lo, hi}}
-}
-
-// ruleNumEncoder: int / long encoders.
-//   part "partition": the input sets of the forms partition the type's range
-//     and each equals the spec range of its octet count minus the shorter
-//     forms' ranges (shortest form).
-//   part "tag": first octet = zero point + high bits, remaining octets are the
-//     big-endian windows of the value; full-width forms carry the constant tag.
-func (w *World) ruleNumEncoder(r *Report, rulePart, ruleTag, cname string, spec []specNum) {
-	c := w.codecs()[cname]
-	if c == nil || c.Enc == nil {
-		r.undecided(rulePart, cname+" encoder", "-", "no package function func("+cname+"-type) []byte found")
-		return
-	}
-	fn := c.Enc
-	r.fnSeen(fnName(fn))
-	f := w.flow(fn)
-	pk := f.term(fn.Params[0])
-	top := f.top(fn.Params[0].Type())
-	forms := w.litForms(fn)
-	var union ISet
-	seenN := map[int]bool{}
-	for _, fm := range forms {
-		key := fmt.Sprintf("%s · form of %d octet(s)", fnName(fn), len(fm.Octets))
-		if fm.IsErr {
-			r.add(rulePart, fnName(fn)+" · error return", fm.Pos, false, "the "+cname+" encoder has an error return: not every value encodes")
-			continue
-		}
-		n := len(fm.Octets)
-		if n == 0 {
-			r.undecided(rulePart, fnName(fn)+" · return at "+fm.Pos, fm.Pos, "returned slice is not a composite literal the form extractor understands")
-			continue
-		}
-		D, _ := f.Eval(pk, f.At(fm.Block))
-		if !union.Intersect(D).Empty() {
-			r.add(rulePart, key+" · disjoint", fm.Pos, false, "input set "+D.String()+" overlaps another form")
-		}
-		union = union.Union(D)
-		var sf *specNum
-		var shorter ISet
-		for i := range spec {
-			if spec[i].Octets == n {
-				sf = &spec[i]
-			} else if spec[i].Octets < n {
-				shorter = shorter.Union(mkSet(spec[i].Lo, spec[i].Hi))
-			}
-		}
-		if sf == nil {
-			r.add(rulePart, key, fm.Pos, false, fmt.Sprintf("the specification has no %s form of %d octets", cname, n))
-			continue
-		}
-		if seenN[n] {
-			key += " (second)"
-		}
-		seenN[n] = true
-		want := mkSet(sf.Lo, sf.Hi).Intersect(top).Minus(shorter)
-		r.add(rulePart, key, fm.Pos, D.Equal(want), fmt.Sprintf("inputs reaching the form D=%s; shortest-form range for %d octets = %s", D, n, want))
-
-		// tag + windows
-		tagSet, _ := f.ValueAt(fm.Octets[0], fm.Block)
-		wantTags := specTags(cname, sf.Form)
-		okTag := tagSet != nil && tagSet.Hull().Equal(wantTags)
-		fact := fmt.Sprintf("first octet over D = %s, spec %s", tagSet.HexString(), wantTags.HexString())
-		if sf.Zero >= 0 {
-			zero, base, sh, ok := f.tagPlusHigh(fm.Octets[0])
-			if !ok || zero != int64(sf.Zero) || base.Key() != pk.Key() || sh != 8*(n-1) {
-				okTag = false
-				fact += fmt.Sprintf("; first octet is not %#x + (value >> %d)", sf.Zero, 8*(n-1))
-			} else {
-				fact += fmt.Sprintf("; tag = %#x + (value >> %d)", zero, sh)
-			}
-		} else {
-			if k, isC := fm.Octets[0].(*ssa.Const); !isC || k.Int64() != wantTags.Min().Int64() {
-				okTag = false
-				fact += "; first octet is not the constant tag"
-			}
-			if !D.SubsetOf(bitsRange(uint(8 * (n - 1)))) {
-				okTag = false
-				fact += fmt.Sprintf("; D does not fit %d bits", 8*(n-1))
-			}
-		}
-		for i := 1; i < n; i++ {
-			base, sh, ok := f.octetWindow(fm.Octets[i])
-			if !ok || base.Key() != pk.Key() || sh != 8*(n-1-i) {
-				okTag = false
-				fact += fmt.Sprintf("; octet %d is not byte(value >> %d)", i, 8*(n-1-i))
-			}
-		}
-		r.add(ruleTag, key, fm.Pos, okTag, fact)
-	}
-	r.add(rulePart, fnName(fn)+" · forms cover the type", w.pos(fn.Pos()), union.Equal(top), fmt.Sprintf("union of form inputs = %s, type range = %s", union, top))
-	r.floor(rulePart+" ("+cname+")", len(forms), len(spec))
-}
-
-// ruleDecoderForms: every tag of every spec form of the production reaches a
-// nil-error return of the decoder after pulling exactly the form's payload.
-func (w *World) ruleDecoderForms(r *Report, rule, cname string) {
-	c := w.codecs()[cname]
-	if c == nil || c.Dec == nil {
-		r.undecided(rule, cname+" decoder", "-", "no package function func(ByteRuneReader,int32)(T,error) found for "+cname)
-		return
-	}
-	fn := c.Dec
-	r.fnSeen(fnName(fn))
-	f := w.flow(fn)
-	forms, err := w.decForms(fn, f)
-	if err != nil {
-		r.undecided(rule, fnName(fn), w.pos(fn.Pos()), err.Error())
-		return
-	}
-	n := 0
-	for _, sf := range specForms {
-		if sf.Prod != cname || sf.Payload < 0 {
-			continue
-		}
-		n++
-		ok := true
-		var facts []string
-		for t := sf.Lo; t <= sf.Hi; t++ {
-			var hit *DecForm
-			cnt := 0
-			for _, df := range forms {
-				if df.Tags.Contains(int64(t)) {
-					cnt++
-					if hit == nil || (hit.IsErr && !df.IsErr) {
-						hit = df
-					}
-				}
-			}
-			switch {
-			case hit == nil:
-				ok = false
-				facts = append(facts, fmt.Sprintf("tag x%02x reaches no return", t))
-			case hit.IsErr:
-				ok = false
-				facts = append(facts, fmt.Sprintf("tag x%02x is rejected (error return at %s)", t, hit.Pos))
-			case hit.Unknown || hit.Payload != sf.Payload:
-				ok = false
-				facts = append(facts, fmt.Sprintf("tag x%02x pulls %d octets (return at %s), spec %d", t, hit.Payload, hit.Pos, sf.Payload))
-			}
-			if len(facts) > 3 {
-				break
-			}
-		}
-		fact := fmt.Sprintf("tags x%02x-x%02x each reach a nil-error return after %d payload octet(s)", sf.Lo, sf.Hi, sf.Payload)
-		if !ok {
-			fact = strings.Join(facts, "; ")
-		}
-		r.add(rule, fmt.Sprintf("%s · spec form %s/%s", fnName(fn), sf.Prod, sf.Form), w.pos(fn.Pos()), ok, fact)
-	}
-	r.floor(rule+" ("+cname+")", n, 1)
 }
 
 // ruleWrapperForwards: the Decoder method wrapping a scalar decoder returns
@@ -209,211 +57,6 @@ func (w *World) ruleWrapperForwards(r *Report, rule, cname string) {
 		}
 	}
 	r.add(rule, fnName(fn)+" · forwards the "+cname+" decoder", w.pos(fn.Pos()), ok, fact)
-}
-
-// rulePairOctets: for every encoder form, every first octet it can emit is
-// accepted by the paired decoder, which then pulls exactly the remaining
-// octets of the form (self-delimiting scalars: encoder octets = decoder octets).
-func (w *World) rulePairOctets(r *Report, rule, cname string) {
-	c := w.codecs()[cname]
-	if c == nil || c.Enc == nil || c.Dec == nil {
-		r.undecided(rule, cname+" codec pair", "-", "encoder or decoder not found")
-		return
-	}
-	fe := w.flow(c.Enc)
-	fd := w.flow(c.Dec)
-	dforms, err := w.decForms(c.Dec, fd)
-	if err != nil {
-		r.undecided(rule, fnName(c.Dec), "-", err.Error())
-		return
-	}
-	n := 0
-	for _, fm := range w.litForms(c.Enc) {
-		if fm.IsErr || len(fm.Octets) == 0 {
-			continue
-		}
-		ts, _ := fe.ValueAt(fm.Octets[0], fm.Block)
-		if ts != nil && ts.Equal(single('N')) {
-			continue // null is a dispatcher-level value (dispatch rules)
-		}
-		n++
-		key := fmt.Sprintf("%s form of %d octet(s) ↔ %s", fnName(c.Enc), len(fm.Octets), fnName(c.Dec))
-		tags, small := ts.Elems(256)
-		if ts == nil || !small {
-			r.undecided(rule, key, fm.Pos, "first octet set not bounded")
-			continue
-		}
-		ok := true
-		fact := fmt.Sprintf("first octets %s: decoder pulls %d octet(s) = form length - 1", ts.HexString(), len(fm.Octets)-1)
-		for _, t := range tags {
-			var hit *DecForm
-			for _, df := range dforms {
-				if df.Tags.Contains(t) && !df.IsErr {
-					hit = df
-				}
-			}
-			if hit == nil {
-				ok, fact = false, fmt.Sprintf("first octet x%02x emitted by the encoder is not accepted by the decoder", t)
-				break
-			}
-			if hit.Unknown || hit.Payload != len(fm.Octets)-1 {
-				ok, fact = false, fmt.Sprintf("first octet x%02x: encoder writes %d more octets, decoder pulls %d (return at %s)", t, len(fm.Octets)-1, hit.Payload, hit.Pos)
-				break
-			}
-		}
-		r.add(rule, key, fm.Pos, ok, fact)
-	}
-	r.floor(rule+" ("+cname+")", n, 2)
-}
-
-// ---- double ----
-
-func (w *World) ruleDoubleEncoder(r *Report, ruleTotal, ruleForms string) {
-	c := w.codecs()["double"]
-	if c == nil || c.Enc == nil {
-		r.undecided(ruleForms, "double encoder", "-", "not found")
-		return
-	}
-	fn := c.Enc
-	r.fnSeen(fnName(fn))
-	f := w.flow(fn)
-	pv := f.term(fn.Params[0])
-	forms := w.litForms(fn)
-	// totality
-	nErr := 0
-	for _, fm := range forms {
-		if fm.IsErr && f.Reachable(fm.Block) {
-			nErr++
-			r.add(ruleTotal, fmt.Sprintf("%s · error return #%d", fnName(fn), nErr), fm.Pos, false, "a float64 reaches an error return: not every double encodes")
-		}
-	}
-	if nErr == 0 {
-		r.add(ruleTotal, fnName(fn)+" · no feasible error return", w.pos(fn.Pos()), true, fmt.Sprintf("%d returns, none with a non-nil error", len(forms)))
-	}
-	// integrality guard: float64(int64(v)) == v
-	ivKey := "conv:int64(" + pv.Key() + ")"
-	guardKey1 := "(conv:float64(" + ivKey + ") == " + pv.Key() + ")"
-	guardKey2 := "(" + pv.Key() + " == conv:float64(" + ivKey + "))"
-	var integral *ssa.BasicBlock
-	for _, b := range fn.Blocks {
-		if iff, ok := b.Instrs[len(b.Instrs)-1].(*ssa.If); ok {
-			k := f.term(iff.Cond).Key()
-			if k == guardKey1 || k == guardKey2 {
-				integral = b.Succs[0]
-			}
-		}
-	}
-	if integral == nil {
-		r.undecided(ruleForms, fnName(fn)+" · integrality guard", w.pos(fn.Pos()), "no branch on float64(int64(v)) == v found: the integral fast path was not recognised")
-		return
-	}
-	// exactness guard of the float32 form
-	f32Key := "(conv:float64(conv:float32(" + pv.Key() + ")) == " + pv.Key() + ")"
-	var f32Block *ssa.BasicBlock
-	for _, b := range fn.Blocks {
-		if iff, ok := b.Instrs[len(b.Instrs)-1].(*ssa.If); ok {
-			k := f.term(iff.Cond).Key()
-			if k == f32Key || k == "("+pv.Key()+" == conv:float64(conv:float32("+pv.Key()+")))" {
-				f32Block = b.Succs[0]
-			}
-		}
-	}
-	var unionInt ISet
-	n := 0
-	for _, fm := range forms {
-		if fm.IsErr || len(fm.Octets) == 0 {
-			continue
-		}
-		n++
-		k, isC := fm.Octets[0].(*ssa.Const)
-		if !isC {
-			r.add(ruleForms, fmt.Sprintf("%s · form at block %d", fnName(fn), fm.Block.Index), fm.Pos, false, "first octet is not a constant tag")
-			continue
-		}
-		tag := int(k.Int64())
-		sf := specByTag[tag]
-		key := fmt.Sprintf("%s · form x%02x", fnName(fn), tag)
-		if sf.Prod != "double" {
-			r.add(ruleForms, key, fm.Pos, false, fmt.Sprintf("tag x%02x is %s in the specification, not double", tag, sf.Prod))
-			continue
-		}
-		if len(fm.Octets) != sf.Payload+1 {
-			r.add(ruleForms, key, fm.Pos, false, fmt.Sprintf("form has %d octets, spec %d", len(fm.Octets), sf.Payload+1))
-			continue
-		}
-		ok := true
-		var fact string
-		switch sf.Form {
-		case "zero", "one", "double2", "double3":
-			if !integral.Dominates(fm.Block) {
-				ok, fact = false, "integral form not guarded by float64(int64(v)) == v"
-				break
-			}
-			env := f.At(fm.Block)
-			D := env[ivKey]
-			if D == nil {
-				D = f.top(types.Typ[types.Int64])
-			}
-			unionInt = unionInt.Union(D)
-			var want ISet
-			for _, sn := range specDoubleIntegral {
-				if sn.Form == sf.Form {
-					want = mkSet(sn.Lo, sn.Hi)
-					for _, sm := range specDoubleIntegral {
-						if sm.Octets < sn.Octets {
-							want = want.Minus(mkSet(sm.Lo, sm.Hi))
-						}
-					}
-				}
-			}
-			ok = D.Equal(want)
-			fact = fmt.Sprintf("integral inputs reaching the form = %s; shortest exact form range = %s", D, want)
-			for i := 1; i < len(fm.Octets); i++ {
-				base, sh, wok := f.octetWindow(fm.Octets[i])
-				if !wok || base.Key() != ivKey || sh != 8*(len(fm.Octets)-1-i) {
-					ok = false
-					fact += fmt.Sprintf("; octet %d is not byte(int64(v) >> %d)", i, 8*(len(fm.Octets)-1-i))
-				}
-			}
-		case "double5", "double9":
-			wantFn := "math.Float32bits"
-			if sf.Form == "double9" {
-				wantFn = "math.Float64bits"
-			}
-			fact = "octets are the big-endian windows of " + wantFn
-			for i := 1; i < len(fm.Octets); i++ {
-				base, sh, wok := f.octetWindow(fm.Octets[i])
-				if !wok || sh != 8*(len(fm.Octets)-1-i) {
-					ok = false
-					fact = fmt.Sprintf("octet %d is not a window of shift %d", i, 8*(len(fm.Octets)-1-i))
-					break
-				}
-				for base.K == TConv {
-					base = base.A
-				}
-				call, isCall := base.V.(*ssa.Call)
-				if !isCall || call.Call.StaticCallee() == nil || qualifiedFnName(call.Call.StaticCallee()) != wantFn {
-					ok = false
-					fact = fmt.Sprintf("octet %d is not taken from %s(...)", i, wantFn)
-					break
-				}
-				arg := f.term(call.Call.Args[0]).Key()
-				if sf.Form == "double9" && arg != pv.Key() {
-					ok, fact = false, "Float64bits is not applied to the input value"
-				}
-				if sf.Form == "double5" && arg != "conv:float32("+pv.Key()+")" {
-					ok, fact = false, "Float32bits is not applied to float32(input)"
-				}
-			}
-			if sf.Form == "double5" && (f32Block == nil || !f32Block.Dominates(fm.Block)) {
-				ok, fact = false, "the 4-octet form is not guarded by float64(float32(v)) == v"
-			}
-		}
-		r.add(ruleForms, key, fm.Pos, ok, fact)
-	}
-	want := mkSet(-32768, 32767)
-	r.add(ruleForms, fnName(fn)+" · integral forms cover [-32768,32767]", w.pos(fn.Pos()), unionInt.Equal(want), fmt.Sprintf("union of integral form inputs = %s", unionInt))
-	r.floor(ruleForms, n, 6)
 }
 
 // ---- string / binary ----
@@ -676,73 +319,3 @@ func (w *World) ruleChunkArith(r *Report, rule string, fn *ssa.Function, f *Flow
 	r.add(rule, key, w.pos(fn.Pos()), ok, fact)
 }
 
-// ruleLenReader: the length readers (getStringLen/getBinaryLen): per spec
-// form, header octets pulled and the length range produced.
-func (w *World) ruleLenReader(r *Report, rule, cname string) {
-	c := w.codecs()[cname]
-	if c == nil || c.Dec == nil {
-		r.undecided(rule, cname+" decoder", "-", "not found")
-		return
-	}
-	// the length reader: callee of the decoder with signature (ByteRuneReader, byte) (int, error)
-	var lr *ssa.Function
-	for _, cs := range w.callSitesIn(c.Dec) {
-		sc := cs.call.Call.StaticCallee()
-		if sc == nil || !w.inPkg(sc) {
-			continue
-		}
-		sig := sc.Signature
-		if sig.Params().Len() == 2 && sig.Results().Len() == 2 && typeStr(sig.Params().At(1).Type()) == "byte" && typeStr(sig.Results().At(0).Type()) == "int" {
-			lr = sc
-		}
-	}
-	if lr == nil {
-		r.undecided(rule, fnName(c.Dec)+" · length reader", "-", "no callee of shape func(ByteRuneReader, byte) (int, error)")
-		return
-	}
-	r.fnSeen(fnName(lr))
-	f := w.flow(lr)
-	forms, err := w.decForms(lr, f)
-	if err != nil {
-		r.undecided(rule, fnName(lr), "-", err.Error())
-		return
-	}
-	n := 0
-	for _, sl := range specLens {
-		if sl.Prod != cname {
-			continue
-		}
-		tags := specTags(cname, sl.Form)
-		key := fmt.Sprintf("%s · spec form %s/%s", fnName(lr), cname, sl.Form)
-		n++
-		ok := true
-		fact := ""
-		ts, _ := tags.Elems(256)
-		for _, t := range ts {
-			var hit *DecForm
-			for _, df := range forms {
-				if df.Tags.Contains(t) && !df.IsErr {
-					hit = df
-				}
-			}
-			if hit == nil {
-				ok, fact = false, fmt.Sprintf("tag x%02x is not accepted by the length reader", t)
-				break
-			}
-			if hit.Payload != sl.HdrOctets || hit.Unknown {
-				ok, fact = false, fmt.Sprintf("tag x%02x: %d header octets pulled, spec %d", t, hit.Payload, sl.HdrOctets)
-				break
-			}
-			ret := hit.Block.Instrs[len(hit.Block.Instrs)-1].(*ssa.Return)
-			L, _ := f.ValueAt(ret.Results[0], hit.Block)
-			want := mkSet(sl.Lo, sl.Hi)
-			if L == nil || !L.SubsetOf(want) {
-				ok, fact = false, fmt.Sprintf("tag x%02x: length computed ∈ %s, spec range %s", t, L, want)
-				break
-			}
-			fact = fmt.Sprintf("tags %s: %d header octet(s), length ∈ %s ⊆ %s", tags.HexString(), sl.HdrOctets, L, want)
-		}
-		r.add(rule, key, w.pos(lr.Pos()), ok, fact)
-	}
-	r.floor(rule+" ("+cname+")", n, 4)
-}
